@@ -103,8 +103,14 @@ func main() {
 	nevents := 0
 	for r := 0; r < *rounds; r++ {
 		n := 2 + rng.Intn(4)
+		// every other round of Documents is a contention round: three or more replicas put and remove primitive values
+		// under the two root keys most of the time (several concurrent removes and puts of one key, delivered in every order)
+		hot := *kind == "doc" && r%2 == 1
+		if hot && n < 3 {
+			n = 3
+		}
 		w := replica.NewWorld(*kind, n)
-		tg := &tagger{next: 1000 * (r + 1)}
+		tg := &tagger{next: 1000 * (r%30 + 1)} // values stay below the smallest integer width of vals.Go (int16); histories are separated by resets
 		back := map[string]int{} // canonical value -> tag
 		var trace []ev
 		toTags := func(v interface{}) interface{} {
@@ -244,6 +250,14 @@ func main() {
 					var cs []cont
 					containers(ob.View, nil, &cs)
 					ct := cs[rng.Intn(len(cs))]
+					hotCall := hot && rng.Intn(10) < 7
+					if hotCall {
+						for _, c0 := range cs {
+							if len(c0.path) == 0 {
+								ct = c0
+							}
+						}
+					}
 					var path []json.RawMessage
 					for _, p := range ct.path {
 						path = append(path, raw(p))
@@ -252,13 +266,26 @@ func main() {
 						path = []json.RawMessage{}
 					}
 					switch {
-					case !ct.arr && len(ct.keys) > 0 && rng.Intn(4) == 0:
+					case !ct.arr && len(ct.keys) > 0 && (rng.Intn(4) == 0 || (hotCall && rng.Intn(2) == 0)):
 						k := ct.keys[rng.Intn(len(ct.keys))]
+						if hotCall {
+							for _, k0 := range ct.keys {
+								if k0 == "x" && rng.Intn(5) < 4 {
+									k = k0
+								}
+							}
+						}
 						call = spec.Call{Op: "rmv", Path: path, K: k}
 						cj = ev{"op": "rmv", "path": ct.path, "k": k}
 					case !ct.arr:
 						k := []string{"x", "y"}[rng.Intn(2)]
 						v := docVal(0)
+						if hotCall {
+							v = docVal(2) // a primitive
+							if rng.Intn(5) < 4 {
+								k = "x"
+							}
+						}
 						call = spec.Call{Op: "put", Path: path, K: k, V: raw(v)}
 						cj = ev{"op": "put", "path": ct.path, "k": k, "v": v}
 					case ct.n > 0 && rng.Intn(4) == 0:
